@@ -51,9 +51,11 @@ type chanObj struct {
 }
 
 type mutexState struct {
-	locked  bool
-	readers int
-	waitq   []*G
+	locked    bool
+	readers   int
+	waitq     []*G
+	owner     *G         // holder of the write lock
+	readersBy map[*G]int // read locks per goroutine
 }
 
 type Sched struct {
@@ -382,10 +384,15 @@ func (s *Sched) lock(g *G, p *value, read bool) {
 	for {
 		if read && !ms.locked {
 			ms.readers++
+			if ms.readersBy == nil {
+				ms.readersBy = map[*G]int{}
+			}
+			ms.readersBy[g]++
 			return
 		}
 		if !read && !ms.locked && ms.readers == 0 {
 			ms.locked = true
+			ms.owner = g
 			return
 		}
 		ms.waitq = append(ms.waitq, g)
@@ -401,11 +408,15 @@ func (s *Sched) unlock(g *G, p *value, read bool) {
 			panic(targetPanic{v: rtErr("sync: RUnlock of unlocked RWMutex")})
 		}
 		ms.readers--
+		if ms.readersBy[g] > 0 {
+			ms.readersBy[g]--
+		}
 	} else {
 		if !ms.locked {
 			panic(targetPanic{v: rtErr("sync: unlock of unlocked mutex")})
 		}
 		ms.locked = false
+		ms.owner = nil
 	}
 	for _, w := range ms.waitq {
 		w.state = gRunnable
